@@ -451,7 +451,7 @@ func runC06(r *Run, p *Prog) {
 	r.Guard("Q10", func() {
 		n := 0
 		for _, f := range a.methods {
-			for _, cs := range callsNamed(f, false, "regexp.MustCompile") {
+			for _, cs := range compiledPatterns(p, f) {
 				n++
 				k, isK := cs.Common.Args[0].(*ssa.Const)
 				ok := false
